@@ -553,6 +553,10 @@ def _content_len_with(node, key, L):
 
 
 def run(ctx):
+    # no hidden state: what this property is about keeps nothing at module level between calls (memo tables keyed by less than
+    # the value depends on, caches of the outside world, counters) -- a verdict on one call must hold for every later call
+    from .. import rules as _rules
+    _rules.check_hidden_state(ctx, 'C14.6', ['bits.utils.pubkey', 'bits.utils.point', 'bits.utils.is_point', 'bits.utils.wif_encode', 'bits.utils.wif_decode', 'bits.utils.pem_encode_key', 'bits.utils.pem_decode_key'])
     check_point_decoder(ctx)
     check_pubkey_encoder(ctx)
     check_wif(ctx)
